@@ -520,7 +520,8 @@ def main():
         if brc != 0:
             txt = open(blog, errors="replace").read()
             log("INCONCLUSIVE property=%s: harness build failed against the current /repo (rc=%s)" % (pid, brc))
-            log("\n".join([l for l in txt.splitlines() if l.startswith("error") or " --> " in l][:40]))
+            errs = re.findall(r"^(error(?:\[E\d+\])?: .*(?:\n\s+-->.*)?)", txt, re.M)
+            log("\n".join(errs[:30]))
             if os.environ.get("VERIF_KEEP_LOGS"):
                 d = os.path.join(VERIF, "logs", pid)
                 os.makedirs(d, exist_ok=True)
